@@ -514,9 +514,13 @@ def history_shapes(prog, hist):
         elif it["k"] == "bad":
             e = prog["cat"][it["j"] - 1]
             shapes.add("bad:" + e["c"] + ("+shadow" if e.get("sh") else ""))
+            if e["c"] == "rettype":
+                shapes.add("rejected-function-definition")
             if e.get("sh") and e["sh"] in entered:
                 shapes.add("redeclares-defined-name")
         elif it["k"] == "pre":
             fm = prog["forms"][it["j"] - 1]
             shapes.add("pre:" + ("fun" if fm["k"] == "f" else ("var" if fm["defs"] else "stmt")))
+            if fm["k"] == "f":
+                shapes.add("rejected-function-definition")
     return sorted(shapes)
